@@ -18,7 +18,8 @@ def fmtDisp : Registry.Disp → String
   | .lib fl => s!"lib:{fl}"
 
 def parseDisp (s : String) : Option Registry.Disp :=
-  match s.splitOn ":" with
+  -- an optional `+<hex flags>` suffix (extra sa_flags of the foreign handler) does not matter to the model
+  match ((s.splitOn "+").headD "").splitOn ":" with
   | ["dfl"] => some .dfl
   | ["ign"] => some .ign
   | ["h1", f] => f.toNat?.map .h1
